@@ -103,6 +103,21 @@ func (p *nilWrapNode) Reopen() error     { return p.h.reopenCounted() }
 func (p *nilWrapNode) Type() el.NodeType { return p.h.Type() }
 func (p *nilWrapNode) Unwrap() el.Node   { return nil }
 
+// closerWrapNode is a decorator with its OWN Close that also offers Unwrap (inner has no Close): the controller must close
+// the registered node itself, not dig past it
+type closerWrapNode struct {
+	h     *hnode
+	inner *plainNode
+}
+
+func (p *closerWrapNode) Process(ctx context.Context, e *el.Event) (*el.Event, error) {
+	return p.h.Process(ctx, e)
+}
+func (p *closerWrapNode) Reopen() error                   { return p.h.reopenCounted() }
+func (p *closerWrapNode) Type() el.NodeType               { return p.h.Type() }
+func (p *closerWrapNode) Unwrap() el.Node                 { return p.inner }
+func (p *closerWrapNode) Close(ctx context.Context) error { return p.h.Close(ctx) }
+
 // plainNode has neither Close nor Unwrap
 type plainNode struct {
 	h *hnode
@@ -124,6 +139,8 @@ func hnodeOf(n el.Node) *hnode {
 		case *plainNode:
 			return t.h
 		case *nilWrapNode:
+			return t.h
+		case *closerWrapNode:
 			return t.h
 		default:
 			return nil
@@ -209,6 +226,12 @@ func polOpt(p int, node bool) []el.Option {
 		return el.WithPipelineRegistrationPolicy(pol)
 	}
 	bad := el.RegistrationPolicy("NoSuchPolicy")
+	other := func(pol el.RegistrationPolicy) el.Option {
+		if node {
+			return el.WithPipelineRegistrationPolicy(pol)
+		}
+		return el.WithNodeRegistrationPolicy(pol)
+	}
 	switch p {
 	case 0:
 		return nil
@@ -227,8 +250,13 @@ func polOpt(p int, node bool) []el.Option {
 		return []el.Option{mk(el.AllowOverwrite), nil, mk(el.DenyOverwrite)}
 	case 7:
 		return []el.Option{mk(el.DenyOverwrite), mk(el.AllowOverwrite)}
-	default:
+	case 8:
 		return []el.Option{mk(el.DenyOverwrite), mk(bad)}
+	// options of the OTHER kind (a shared option slice passed to every register call) must not influence this call
+	case 9:
+		return []el.Option{mk(el.DenyOverwrite), other(el.AllowOverwrite)}
+	default:
+		return []el.Option{other(el.DenyOverwrite)}
 	}
 }
 
@@ -351,10 +379,17 @@ func (w *world) apply(op Op, closeFails map[int]bool) Obs {
 			node = &plainNode{h: h}
 		case 4:
 			node = &nilWrapNode{h: h}
+		case 5:
+			node = &closerWrapNode{h: h, inner: &plainNode{h: &hnode{obj: -1, typ: h.typ}}}
 		}
 		err := w.b.RegisterNode(nid(op.ID), node, polOpt(op.Pol, true)...)
 		o.Ok, o.Err = err == nil, err != nil
 	case "rmnode":
+		if op.Wrap == 1 {
+			c2, cancel := context.WithCancel(ctx)
+			cancel()
+			ctx = c2
+		}
 		err := w.b.RemoveNode(ctx, nid(op.ID))
 		o.Ok, o.Err = err == nil, err != nil
 	case "regpipe":
@@ -368,6 +403,11 @@ func (w *world) apply(op Op, closeFails map[int]bool) Obs {
 		err := w.b.RemovePipeline(ety(op.Ety), pid(op.Pid))
 		o.Ok, o.Err = err == nil, err != nil
 	case "rpan":
+		if op.Wrap == 1 {
+			c2, cancel := context.WithCancel(ctx)
+			cancel()
+			ctx = c2
+		}
 		ok, err := w.b.RemovePipelineAndNodes(ctx, ety(op.Ety), pid(op.Pid))
 		o.Ok, o.Err = ok, err != nil
 	case "thr":
@@ -486,7 +526,7 @@ func tyLit(t int) string {
 	return [...]string{"TOther", "TFilter", "TFormatter", "TSink", "TFormatterFilter", "TOther"}[t]
 }
 func polLit(p int) string {
-	return [...]string{"ANone", "AAllow", "ADeny", "ABad", "ABad", "ABad", "ADeny", "AAllow", "ABad"}[p]
+	return [...]string{"ANone", "AAllow", "ADeny", "ABad", "ABad", "ABad", "ADeny", "AAllow", "ABad", "ADeny", "ANone"}[p]
 }
 func opLit(op Op) string {
 	switch op.K {
@@ -530,7 +570,7 @@ func caseLit(c Case, obs []Obs) string {
 	}
 	var nonClosers []int
 	for _, op := range c.Ops {
-		if op.K == "regnode" && op.Wrap >= 3 {
+		if op.K == "regnode" && (op.Wrap == 3 || op.Wrap == 4) {
 			nonClosers = append(nonClosers, op.Obj)
 		}
 	}
@@ -654,12 +694,16 @@ func genTypeSeq(e *emitter, maxLen int, variants bool) {
 	rec(nil)
 }
 
-var menu = [][]int{{2, 3}, {1, 2, 3}, {2, 4}, {1, 1, 2, 3}, {2, 2, 3}, {1, 2, 4}}
+var menu = [][]int{{2, 3}, {1, 2, 3}, {2, 4}, {1, 1, 2, 3}, {2, 2, 3}, {1, 2, 4}, {2, 1, 2, 3}}
 var nodeTy = map[int]int{1: 1, 2: 2, 3: 3, 4: 3}
+var bfsSmall bool
 
 func alphabet(small bool) []Op {
 	var a []Op
 	pols := []int{0, 2}
+	if small {
+		pols = []int{0}
+	}
 	for id := 1; id <= 4; id++ {
 		for _, p := range pols {
 			a = append(a, Op{K: "regnode", ID: id, Ty: nodeTy[id], Pol: p})
@@ -680,6 +724,10 @@ func alphabet(small bool) []Op {
 			// definitions that are refused after validation (unregistered node / ill-formed shape): failed overwrites
 			a = append(a, Op{K: "regpipe", Pid: p, Ety: t, IDs: []int{2, 7}}, Op{K: "regpipe", Pid: p, Ety: t, IDs: []int{3, 2}})
 			a = append(a, Op{K: "rmpipe", Ety: t, Pid: p}, Op{K: "rpan", Ety: t, Pid: p})
+			if !small {
+				// the same removal with an already-cancelled context: the registry does not depend on the context
+				a = append(a, Op{K: "rpan", Ety: t, Pid: p, Wrap: 1})
+			}
 		}
 	}
 	return a
@@ -702,7 +750,7 @@ func numberObjs(ops []Op) []Op {
 // breadth-first over the implementation's own state space; one case per (state, op) edge
 func genBFS(e *emitter, maxDepth, budget int, withReopen bool, seedOps []Op) (depthDone int, states int, exhaustive bool) {
 	type st struct{ hist []Op }
-	alpha := alphabet(false)
+	alpha := alphabet(bfsSmall)
 	seen := map[string]bool{}
 	frontier := []st{{hist: seedOps}}
 	exhaustive = true
@@ -764,19 +812,19 @@ func genRandom(e *emitter, r *hc.Rand, n, maxLen int) {
 				if id == 0 || r.Chance(1, 8) {
 					ty = 1 + r.Intn(5)
 				}
-				pol := []int{0, 0, 1, 2, 2, 3, 4, 6, 7, 8}[r.Intn(10)]
+				pol := []int{0, 0, 1, 2, 2, 3, 4, 6, 7, 8, 9, 10}[r.Intn(12)]
 				if r.Chance(3, 4) && (pol == 3 || pol == 4 || pol == 8) {
 					pol = 0
 				}
 				wrap := 0
 				if r.Chance(1, 3) {
-					wrap = 1 + r.Intn(4)
+					wrap = 1 + r.Intn(5)
 				}
 				ops = append(ops, Op{K: "regnode", ID: id, Ty: ty, Pol: pol, Wrap: wrap})
 				registered[id] = true
 				nobj++
 			case x < 30:
-				ops = append(ops, Op{K: "rmnode", ID: r.Intn(5)})
+				ops = append(ops, Op{K: "rmnode", ID: r.Intn(5), Wrap: r.Intn(4) / 3})
 			case x < 62:
 				ids := append([]int(nil), menu[r.Intn(len(menu))]...)
 				if r.Chance(1, 6) { // mutate: drop / duplicate / unknown / empty
@@ -791,7 +839,7 @@ func genRandom(e *emitter, r *hc.Rand, n, maxLen int) {
 						ids[r.Intn(len(ids))] = 0
 					}
 				}
-				pol := []int{0, 0, 0, 1, 2, 3, 4, 5, 6, 7, 8}[r.Intn(11)]
+				pol := []int{0, 0, 0, 1, 2, 3, 4, 5, 6, 7, 8, 9, 10}[r.Intn(13)]
 				p, t := 1+r.Intn(3), 1+r.Intn(2)
 				if r.Chance(1, 30) {
 					p = 0
@@ -803,7 +851,7 @@ func genRandom(e *emitter, r *hc.Rand, n, maxLen int) {
 			case x < 72:
 				ops = append(ops, Op{K: "rmpipe", Ety: r.Intn(3), Pid: r.Intn(4)})
 			case x < 86:
-				ops = append(ops, Op{K: "rpan", Ety: 1 + r.Intn(2), Pid: 1 + r.Intn(3)})
+				ops = append(ops, Op{K: "rpan", Ety: 1 + r.Intn(2), Pid: 1 + r.Intn(3), Wrap: r.Intn(4) / 3})
 			case x < 91:
 				ops = append(ops, Op{K: "thr", Ety: r.Intn(3), V: int64(r.Intn(5) - 1)})
 			case x < 95:
@@ -829,7 +877,7 @@ func genRandom(e *emitter, r *hc.Rand, n, maxLen int) {
 
 // C07: all policy sequences up to length maxLen for one node id and one pipeline id, interleaved with removals
 func genPolicy(e *emitter, maxLen int) {
-	pols := []int{0, 1, 2, 3, 4, 6, 7}
+	pols := []int{0, 1, 2, 3, 4, 6, 7, 9, 10}
 	var rec func(seq []int)
 	rec = func(seq []int) {
 		if len(seq) > 0 {
@@ -859,6 +907,10 @@ func genPolicy(e *emitter, maxLen int) {
 						continue
 					}
 					ops := []Op{{K: "regnode", ID: 1, Ty: 1}, {K: "regnode", ID: 2, Ty: 2}, {K: "regnode", ID: 3, Ty: 3}, {K: "regnode", ID: 4, Ty: 3}}
+					// sibling pipelines of the same type (the policy of (t1,p1) must be found among them whatever the map order)
+					for sib := 0; sib < len(seq)%3; sib++ {
+						ops = append(ops, Op{K: "regpipe", Pid: 2 + sib, Ety: 1, IDs: menu[0], Pol: []int{0, 2}[sib%2]})
+					}
 					for i, p := range seq {
 						if removeAt == i && i > 0 {
 							ops = append(ops, Op{K: rmKind, Pid: 1, Ety: 1})
@@ -984,6 +1036,25 @@ func overwriteRace(dur time.Duration, senders int) raceResult {
 	return res
 }
 
+// a node id of a registered pipeline is bound to a new object and the SAME definition is registered again (and not): the
+// pipeline must be linked with the objects registered at its (latest) registration; Reopen probes follow
+func genRebind(e *emitter) {
+	for mi, ids := range menu {
+		for _, again := range []bool{true, false} {
+			for pos := range ids {
+				ops := []Op{{K: "regnode", ID: 1, Ty: 1}, {K: "regnode", ID: 2, Ty: 2}, {K: "regnode", ID: 3, Ty: 3}, {K: "regnode", ID: 4, Ty: 3},
+					{K: "regpipe", Pid: 1, Ety: 1, IDs: ids}, {K: "regpipe", Pid: 2, Ety: 2, IDs: menu[(mi+1)%len(menu)]},
+					{K: "regnode", ID: ids[pos], Ty: nodeTy[ids[pos]], Wrap: pos % 3}}
+				if again {
+					ops = append(ops, Op{K: "regpipe", Pid: 1, Ety: 1, IDs: ids, Pol: []int{0, 2}[pos%2]})
+				}
+				ops = append(ops, Op{K: "reopen"}, Op{K: "reopen", Fail: 5}, Op{K: "reopen", Fail: ids[pos]}, Op{K: "rpan", Pid: 1, Ety: 1}, Op{K: "reopen"})
+				e.emit(Case{Gen: "rebind", Types: []int{1, 2}, Ops: numberObjs(ops)})
+			}
+		}
+	}
+}
+
 func runCorpus(e *emitter, path string) {
 	data, err := os.ReadFile(path)
 	if err != nil {
@@ -1013,6 +1084,7 @@ func main() {
 	bfsDepth := flag.Int("bfs-depth", 3, "BFS depth")
 	bfsBudget := flag.Int("bfs-budget", 3000, "max BFS cases (0 = unlimited)")
 	bfsReopen := flag.Bool("bfs-reopen", false, "append Reopen probes (C20)")
+	flag.BoolVar(&bfsSmall, "bfs-small", false, "smaller BFS alphabet (default policy only, four definitions): deeper for the same budget")
 	nRandom := flag.Int("random", 300, "random histories")
 	randLen := flag.Int("random-len", 40, "max random history length")
 	polLen := flag.Int("policy-len", 4, "max policy sequence length")
@@ -1071,7 +1143,7 @@ func main() {
 			}
 			// two roots: the empty broker (shallow), and a broker with the four nodes registered (the interesting part of the space)
 			d0, s0, ex0 := genBFS(e, 2, budget, *bfsReopen, nil)
-			seeded := numberObjs([]Op{{K: "regnode", ID: 1, Ty: 1, Wrap: 1}, {K: "regnode", ID: 2, Ty: 2}, {K: "regnode", ID: 3, Ty: 3, Wrap: 2}, {K: "regnode", ID: 4, Ty: 3, Wrap: 4}})
+			seeded := numberObjs([]Op{{K: "regnode", ID: 1, Ty: 1, Wrap: 1}, {K: "regnode", ID: 2, Ty: 2, Wrap: 5}, {K: "regnode", ID: 3, Ty: 3, Wrap: 2}, {K: "regnode", ID: 4, Ty: 3, Wrap: 4}})
 			d, s, ex := genBFS(e, *bfsDepth, budget, *bfsReopen, seeded)
 			summary["bfs_empty_root_depth_completed"] = d0
 			summary["bfs_depth_completed"] = d
@@ -1079,6 +1151,8 @@ func main() {
 			summary["bfs_exhaustive_to_requested_depth"] = ex && ex0
 		case "random":
 			genRandom(e, r.Fork(), *nRandom, *randLen)
+		case "rebind":
+			genRebind(e)
 		case "policy":
 			genPolicy(e, *polLen)
 			summary["policy_exhaustive_len"] = *polLen
